@@ -278,8 +278,9 @@ def run_check(modname: str, tier: str, seed: int, jobs: int | None = None) -> in
     # ---- confirm + classify violations --------------------------------------------------------------------
     known = load_known()
     by_witness = {}
+    fine = ("touched", "start_aligned", "past_end", "short", "long")  # report one representative per coarse class
     for v in viols:
-        by_witness.setdefault(jkey(v["witness"]), v)
+        by_witness.setdefault(jkey({k: x for k, x in v["witness"].items() if k not in fine}), v)
     confirmed = []
     rdir = os.path.join(VERIF, "replays", prop)
     unstable = 0
